@@ -2,6 +2,9 @@
 package c02
 
 import (
+	"github.com/alttpo/snes/emulator/cpu65c816"
+	"github.com/alttpo/snes/emulator/cpualt"
+
 	"verif/harness/cpuenv"
 	"verif/vp"
 )
@@ -47,6 +50,12 @@ func Lockstep(op int, mode int) {
 		vp.Reach("failed")
 		return
 	}
+	compare(a, b, c1, c2, s1, s2)
+	vp.Assert("memory", vp.BytesEqual(cpuenv.MainMem, cpuenv.AltMem))
+	vp.Reach("end")
+}
+
+func compare(a *cpu65c816.CPU, b *cpualt.CPU, c1, c2 int, s1, s2 bool) {
 	vp.Assert("returned-cycles", c1 == c2)
 	vp.Assert("returned-stopped", s1 == s2)
 	vp.Assert("cycle-total", a.AllCycles == b.AllCycles)
@@ -76,6 +85,37 @@ func Lockstep(op int, mode int) {
 	vp.Assert("flag-E", a.E == b.E)
 	vp.Assert("interrupt-latch", a.Interrupt == b.Interrupt)
 	vp.Assert("debug-registers", a.PPC == b.PPC && a.PRK == b.PRK && a.WDM == b.WDM)
+}
+
+// Copy: a cpualt CPU made with InitFrom from a live, initialised CPU is an interpreter of its own:
+// stepping the copy is equivalent to stepping the primary interpreter from the same state, and
+// leaves the CPU it was copied from untouched (both share the memory devices of the original's bus).
+func Copy(op int, mode int) {
+	m, x := uint8(mode>>1&1), uint8(mode&1)
+	pre := cpuenv.ArbitraryPre(m, x, 0)
+	pre.Interrupt = 0
+	pre.Stopped = false
+	opAddr := uint32(pre.RK)<<16 | uint32(pre.PC)
+	vp.FillBytes("mem", cpuenv.MainMem)
+	vp.FillBytes("mem", cpuenv.AltMem)
+	cpuenv.MainMem[opAddr] = uint8(op)
+	cpuenv.AltMem[opAddr] = uint8(op)
+	a, b, orig := cpuenv.Main, cpuenv.AltCopy, cpuenv.Alt
+	pre.ToMain(a)
+	pre.ToAlt(b)
+	pre.ToAlt(orig)
+	var c1, c2 int
+	var s1, s2 bool
+	p1 := vp.Try(func() { c1, s1 = a.Step() })
+	p2 := vp.Try(func() { c2, s2 = b.Step() })
+	vp.Assert("same-failure-status", p1 == p2)
+	if p1 || p2 {
+		vp.Reach("failed")
+		return
+	}
+	compare(a, b, c1, c2, s1, s2)
 	vp.Assert("memory", vp.BytesEqual(cpuenv.MainMem, cpuenv.AltMem))
+	back := cpuenv.FromAlt(orig)
+	vp.Assert("stepping-a-copy-leaves-the-original-cpu-untouched", back == pre)
 	vp.Reach("end")
 }
